@@ -487,6 +487,9 @@ func c05exec(c *vt.Ctx, hist []string, f c05faults, pipeLike bool, ctrl *sched.C
 			tok := fmt.Sprintf("T%d", w.tokens)
 			if a, b, ok := strings.Cut(ev, "||"); ok {
 				w.do(a, tok)
+				if ctrl.HasDelays() {
+					ctrl.Quiesce() // the library runs up to its parked sites before the second event
+				}
 				w.do(b, tok)
 			} else {
 				w.do(ev, tok)
